@@ -50,6 +50,11 @@ CLAIMED = {
    note="Trusted: value projection. eqv? of +0.0 and -0.0, and comparisons involving NaN inside max/min, are not constrained.",
    technique="TLA+ specification of the numeric order (BigInt, binary32), laws checked by TLC, TLC trace validation of every recorded comparison",
    ref="DESIGN.md section 5, C10"),
+ "C11": dict(
+   text="The list procedures are defined in Machine.tla on the data (R7RS 6.4; folds with the minischeme argument order; higher-order ones as machine continuations that call the procedure argument once per element in order) - not by interpreting base.sld. TLC runs Programs!ListFamily (every procedure on every proper/improper/nested list of length <= 3 over 4 element kinds, every index -1..4, ticking procedure arguments, apply forms) and checks ListLaw on the machine's results (append concatenates and shares its last argument, list-ref/list-tail consistency and error on short lists, call order of map/for-each/fold-left/fold-right, memq/memv return the first matching suffix). Every call is replayed on the interpreter; random arguments (length 12, nesting 3) and random compositions of library calls are validated by TLC against MachineTrace.tla.",
+   note="Trusted: renderer, projection, tick!. Outside the procedures' domains (folds over improper lists, apply with an improper last argument, eq?/eqv? on pairs) nothing is demanded.",
+   technique="TLA+ abstract machine with direct list-library semantics, TLC exhaustive small-scope family with algebraic-law invariant, replay, TLC trace validation",
+   ref="DESIGN.md section 5, C11"),
 }
 PENDING_REASON = "no check is registered for this property yet: the specification module and binding for it are still being built (see DESIGN.md section 10); nothing is claimed"
 
